@@ -212,9 +212,10 @@ class ASTCFG(dict[str, WritableASTBlock]):
                         if b.jump_targets[0] == name:
                             b.jump_targets[0] = it
                     elif len(b.jump_targets) == 2:
+                        # Both targets may point to the removed block.
                         if b.jump_targets[0] == name:
                             b.jump_targets[0] = it
-                        elif b.jump_targets[1] == name:
+                        if b.jump_targets[1] == name:
                             b.jump_targets[1] = it
         self.empty = empty
         return empty
